@@ -459,6 +459,7 @@ def generate(run_seed: int, tier: str = 'quick', stream: str = 'seq') -> dict:
         'FLOOD': rng.pick([0, 0, 0.15, 0.4]),
         'CONCURRENT': rng.pick([0, 0.5, 1.5]),
         'CONSUME': rng.pick([0, 1, 2.5]),
+        'CLONE': rng.pick([0, 0.5, 1.5]),
     }
     n_ops = rng.randint(10, 120 if tier == 'quick' else 250)
     ops = []
@@ -550,6 +551,17 @@ def generate(run_seed: int, tier: str = 'quick', stream: str = 'seq') -> dict:
                    'gc': rng.chance(0.3), 'client': rng.randrange(n_clients)}
             names.append((new['name'], k))
             ops.append(new)
+        elif kind == 'CLONE':
+            cand = [(n, k) for n, k in names if k != 'collective']
+            if not cand:
+                continue
+            n, k = rng.pick(cand)
+            if rng.chance(0.6):
+                ops.append(gen_query(n, k))  # something is memoised for the original first
+            nm = new_name()
+            ops.append({'op': 'CLONE', 'obj': n, 'name': nm, 'how': rng.pick(['copy', 'copy', 'deepcopy', 'pickle']), 'client': rng.randrange(n_clients)})
+            names.append((nm, k))
+            ops.append(gen_query(nm, k))
         elif kind == 'CONSUME':
             cand = [(n, k) for n, k in names if k in ('jumps', 'transitions')]
             if not cand:
@@ -1185,6 +1197,28 @@ class Run:
                     {'kind': e.kind, 'method': method},
                 )
 
+    def op_clone(self, op):
+        """copy.copy / copy.deepcopy / pickle round trip of an analysis object: the clone is another object with the same recipe."""
+        import pickle
+
+        e = self.entries.get(op['obj'])
+        if e is None or e.obj is None or e.kind == 'collective' or self.live_count() >= MAX_LIVE:
+            return self.trace.log(ev='CLONE', step=self.step, skipped=True)
+        how = op.get('how', 'copy')
+        try:
+            if how == 'copy':
+                new = copy.copy(e.obj)
+            elif how == 'deepcopy':
+                new = copy.deepcopy(e.obj)
+            else:
+                new = pickle.loads(pickle.dumps(e.obj))
+        except Exception as ex:  # noqa: BLE001  (whether these objects can be pickled at all is not C20's business)
+            return self.trace.log(ev='CLONE', step=self.step, skipped=type(ex).__name__)
+        deps = list(e.deps) if how == 'copy' else []
+        self.entries[op['name']] = Entry(op['name'], e.kind, e.recipe, new, op.get('client', 0), deps, list(e.maybe_deps) if how == 'copy' else [])
+        self.stats.fault('clone_' + how)
+        self.trace.log(ev='CLONE', step=self.step, src=e.name, name=op['name'], how=how)
+
     def op_consume(self, op):
         e = self.entries.get(op['obj'])
         if e is None or e.obj is None or not CONSUMERS.get(e.kind):
@@ -1262,7 +1296,7 @@ class Run:
         else:
             gc.enable()
         table = {'CREATE': self.op_create, 'QUERY': self.op_query, 'DROP': self.op_drop, 'GC': self.op_gc, 'SHARE': self.op_share,
-                 'CHURN': self.op_churn, 'REUSE_PROBE': self.op_reuse, 'FLOOD': self.op_flood, 'CONCURRENT': self.op_concurrent, 'CONSUME': self.op_consume}
+                 'CHURN': self.op_churn, 'REUSE_PROBE': self.op_reuse, 'FLOOD': self.op_flood, 'CONCURRENT': self.op_concurrent, 'CONSUME': self.op_consume, 'CLONE': self.op_clone}
         for i, op in enumerate(self.sc['ops']):
             self.step = i
             table[op['op']](op)
